@@ -174,7 +174,12 @@ func (c *cctx) evalIdent(id *ast.Ident) cval {
 	}
 	if c.callee == nil {
 		if g, ok := c.st.ghosts[name]; ok {
-			return cval{g, x.ghostTypes[name]}
+			gt := x.ghostTypes[name]
+			if sc, isSc := g.(Sc); isSc && gt == nil && x.ar.BV && sc.T.S.Eq(x.ar.idxSort()) && !sc.T.S.Eq(x.ar.mathSort()) {
+				// loop counters (it<N>) are index-sorted: Go ints in the bv theory
+				gt = types.Typ[types.Int]
+			}
+			return cval{g, gt}
 		}
 		if !c.pos.IsValid() && !c.now {
 			// entry/exit context: parameters and results win over shadowing locals
@@ -333,6 +338,29 @@ func (c *cctx) eval(e ast.Expr) cval {
 		return c.evalSelector(e)
 	case *ast.IndexExpr:
 		base := c.eval(e.X)
+		if base.t != nil {
+			if mt, ok := base.t.Underlying().(*types.Map); ok {
+				// m[k] on a Go map: the stored value, the zero value when absent
+				kv := c.eval(e.Index)
+				msc, ok1 := base.v.(Sc)
+				var k *Term
+				ok2 := false
+				if ok1 {
+					k, ok2 = x.keyID(c.st, mt.Key(), kv.v)
+					if !ok2 {
+						if _, isSc := kv.v.(Sc); isSc {
+							k, ok2 = c.math(kv, e.Index), true
+						}
+					}
+				}
+				if !ok1 || !ok2 {
+					c.fail("cannot index map %s", exprString(e.X))
+					return c.boolVal(True)
+				}
+				v, _ := x.mapGet(c.st, mt, msc.T, k)
+				return cval{v, mt.Elem()}
+			}
+		}
 		i := c.idxOf(c.math(c.eval(e.Index), e.Index))
 		switch bv := base.v.(type) {
 		case Sl:
@@ -1034,6 +1062,11 @@ func (c *cctx) evalCall(e *ast.CallExpr) cval {
 		}
 		id := x.scalarOf(a.v, nil)
 		return c.boolVal(And(Neq(id, IntC(0)), Eq(App(dyntypeFn, id), typeID(types.NewPointer(tp.Scope().Lookup(tn).Type())))))
+	case "strgt":
+		// strgt(a, b): Go's a > b on the strings with ids a and b
+		a := c.math(c.eval(arg(0)), arg(0))
+		b := c.math(c.eval(arg(1)), arg(1))
+		return c.boolVal(App(x.strGtFn(), a, b))
 	case "keyid":
 		// keyid(v): the map-key identity of a struct, array or string value
 		a := c.eval(arg(0))
